@@ -8,6 +8,7 @@
 # exit 0 held / KNOWN-FINDING only; 1 + "VIOLATION property=C10 replay=<path>"; 2 inconclusive (e.g. build failure).
 # Environment: VERIF_SEED, VERIF_FUZZ_SECS (thorough: seconds per worker, default 600), VERIF_FUZZ_WORKERS (default 16),
 #   VERIF_FUZZ_RUNS (quick: runs per target, default 5000), VERIF_FUZZ_NOBUILD=1 (skip step 1),
+#   VERIF_FUZZ_KEEP=1 (keep work/C10/{corpus,merged,artifacts} after the run; default: only logs are kept),
 #   VERIF_ROOT_DIR (default /verif: known_findings.json, corpus, replays, evidence, work),
 #   VERIF_HARNESS_DIR (default /verif/harness), VERIF_FUZZ_TARGET_DIR (default /verif/target).
 set -u
